@@ -138,7 +138,45 @@ def expr_scenario(ctx, text_terms, finished):
         if len(a) != len(bm): return [(st, BoolV(z3.BoolVal(False)))]
         return [(st, BoolV(z3.And(*[x.t == y.t for x, y in zip(a, bm)]) if a else z3.BoolVal(True)))]
 
+    def s_find_char(ex, st, func, args, ty):
+        m = model(st, args[0]); c = z3.Extract(7, 0, args[1].t); out = []; none_so_far = []
+        for i, b in enumerate(m):
+            cnd = z3.And(*(none_so_far + [b.t == c]))
+            if ex.feasible(st, cnd):
+                s2 = st.clone(); s2.pc.append(cnd); out.append((s2, some(s2, BV(bv64(i)))))
+            none_so_far.append(b.t != c)
+        cnd = z3.And(*none_so_far) if none_so_far else z3.BoolVal(True)
+        if ex.feasible(st, cnd):
+            s2 = st.clone(); s2.pc.append(cnd); out.append((s2, none(s2)))
+        return out
+
+    def s_ok_or_else(ex, st, func, args, ty):
+        o = args[0]; d = ex.discr(st, o).t; out = []
+        if ex.feasible(st, d == 1):
+            s2 = st.clone(); s2.pc.append(d == 1); out.append((s2, ok(s2, s2.heap[o.oid][('f', 'Some', 0)])))
+        if ex.feasible(st, d == 0):
+            s2 = st.clone(); s2.pc.append(d == 0); out.append((s2, err(s2, named(s2, s2.fresh_name('presets_err'), 'PreSetParserError'))))
+        return out
+
+    def s_strip_prefix(ex, st, func, args, ty):
+        m = list(model(st, args[0])); c = z3.Extract(7, 0, args[1].t); out = []
+        if not m: return [(st, none(st))]
+        if ex.feasible(st, m[0].t == c):
+            s2 = st.clone(); s2.pc.append(m[0].t == c); out.append((s2, some(s2, slot(s2, seqobj(s2, 'str', m[1:])))))
+        if ex.feasible(st, m[0].t != c):
+            s2 = st.clone(); s2.pc.append(m[0].t != c); out.append((s2, none(s2)))
+        return out
+
+    def s_dyn_get(ex, st, func, args, ty):
+        out = []
+        for present in (True, False):
+            s2 = st.clone(); s2.events.append(('evaluated', present)); out.append((s2, some(s2, named(s2, s2.fresh_name('evaluated'), 'JsonValue')) if present else none(s2)))
+        return out
+
     summ = [
+        (r'impl str>::find::<char>$', s_find_char), (r'Option::<.*>::ok_or_else::<', s_ok_or_else), (r'impl str>::strip_prefix::<char>$', s_strip_prefix),
+        (r'<dyn Get as Get>::get$', s_dyn_get), (r'Context::new_empty$', lambda ex, st, f, a, t: [(st, named(st, st.fresh_name('emptyctx'), 'Context'))]),
+        (r'ToOwned>::to_owned$', s_to_string),
         (r'^find_function$|functions_definitions::find_function$', s_find_function), (r'FunctionDefinitions::create$', s_create), (r'^root$|extractor::root$', s_root),
         (r'impl str>::starts_with::<char>$', s_starts_with), (r'impl u8>::is_ascii_whitespace$', s_is_ascii_ws), (r'impl u8>::is_ascii_control$', s_is_ascii_ctl),
         (r'<std::string::String as Index<.*>>::index$|<str as Index<.*>>::index$', s_str_index),
@@ -314,6 +352,7 @@ OPTION_READERS = {
     'Grouper': (r'^grouper::<impl at [^>]*>::from_str$', 'eof'),
     'Selection': (r'^selection::<impl at [^>]*>::from_str$', 'name'),
     'Sorter': (r'^sorters::<impl at [^>]*>::from_str$', 'direction'),
+    'PreSet': (r'^pre_sets::<impl at [^>]*>::from_str$', 'eof'),
 }
 
 
@@ -321,17 +360,19 @@ def _tail_task(args):
     ctx, opt, ntail = args
     body_rx, kind = OPTION_READERS[opt]
     tail = [z3.BitVec(f't{i}', 8) for i in range(ntail)]
-    text = [z3.BitVecVal(x, 8) for x in b'.a'] + tail
+    text = [z3.BitVecVal(x, 8) for x in (b'v=1' if opt == 'PreSet' else b'.a')] + tail
     fin = []
     sc = expr_scenario(ctx, text, fin); ex = sc.ex
     st = State()
     src = seqobj(st, 'String', [BV(t) for t in text])
     for t in tail: st.pc.append(z3.And(z3.ULT(t, 0x80), t != 0))
     # the first tail byte must end the key `.a` (otherwise it is part of the key, which is a different, valid expression)
-    if tail: st.pc.append(z3.Or(isws(tail[0]), tail[0] == ord('=')))
+    if tail: st.pc.append(z3.Or(isws(tail[0]), tail[0] == ord('=')) if opt != 'PreSet' else isws(tail[0]))
     F = ex.find(body_rx)
     KPANICS.clear()
     ex.new_frame(st, F, [slot(st, src, 'src*')])
+    if opt == 'PreSet':
+        for t in tail: st.pc.append(t != ord('='))
     done = ex.run(st) + sc.extra + list(KPANICS)
     res = {'obl': 0, 'ok': 0, 'cands': [], 'paths': 0, 'samples': []}
     # the sorter trims its tail with str::trim, which also strips VT and FF; the other readers use the JSON blanks
@@ -364,11 +405,13 @@ def _tail_task(args):
             valid = z3.Or(valid, *alts2)
     for d in done:
         if d.status == 'infeasible': continue
+        if any(e[0] == 'evaluated' and not e[1] for e in d.events): continue       # a --set value that evaluates to nothing is rejected for that reason
+        if any(e[0] == 'parse_f64' for e in d.events): continue
         res['paths'] += 1; res['obl'] += 1
         hav = (d.havoc or [None])[0]
         def cand(role, text_, m):
             tv = bytes(m.eval(t, True).as_long() for t in tail) if m is not None else b''
-            res['cands'].append({'role': role, 'text': f'{opt}::from_str(".a" + {tv!r}): {text_}', 'model': {'opt': opt, 'tail_hex': tv.hex()}, 'unmodelled': hav})
+            res['cands'].append({'role': role, 'text': f'{opt}::from_str(<expression> + {tv!r}): {text_}', 'model': {'opt': opt, 'tail_hex': tv.hex()}, 'unmodelled': hav})
         if d.status != 'returned':
             cand(f'path-{d.status}', f'{d.status} {d.notes[-1:]}', ex.valid(d, z3.BoolVal(False))[1]); continue
         rd = cval(ex.discr(d, obj(d, d.ret)).t)
@@ -381,7 +424,7 @@ def _tail_task(args):
                 m2 = ex.valid(d, z3.BoolVal(False))[1]
                 res['samples'].append({'option': opt, 'text': '.a' + bytes(m2.eval(t, True).as_long() for t in tail).decode('latin-1'), 'verdict': 'rejected, as required for every tail on this path'})
         else:
-            cand('accepts-trailing-text' if rd == 0 else 'rejects-valid-text', 'accepted although text follows the expression' if rd == 0 else 'rejected although the text is valid', m)
+            cand(('accepts-trailing-text:' if rd == 0 else 'rejects-valid-text:') + opt, 'accepted although text follows the expression' if rd == 0 else 'rejected although the text is valid', m)
     res.update(queries=ex.queries, solver_s=ex.solver_s, unhandled=dict(ex.unhandled), summaries=list(ex.used_summaries), bodies=list(ex.used_bodies))
     return res
 
@@ -398,12 +441,12 @@ def option_tails(ctx):
     results = pmap(_tail_task, tasks)
     merge(run, fam, results)
     from .cli import run_jawk, show
-    OPT = {'Filter': '--filter', 'Splitter': '--split-by', 'Grouper': '--group-by', 'Selection': '--select', 'Sorter': '--sort-by'}
+    OPT = {'Filter': '--filter', 'Splitter': '--split-by', 'Grouper': '--group-by', 'Selection': '--select', 'Sorter': '--sort-by', 'PreSet': '--set'}
     for c in fam.candidates:
         if c.unmodelled: c.status = 'inconclusive'; continue
         tail = bytes.fromhex(c.model['tail_hex']).decode('latin-1')
-        argv = [OPT[c.model['opt']], '.a' + tail]
+        argv = [OPT[c.model['opt']], ('v=1' if c.model['opt'] == 'PreSet' else '.a') + tail]
         r = run_jawk(ctx, argv, b'{"a":true}')
         c.replay = {'argv': argv, 'rc': r['rc'], 'stdout': show(r['stdout']), 'stderr': show(r['stderr'])[-200:]}
         accepted = r['rc'] == 0
-        c.status = 'reproduced' if accepted == (c.role == 'accepts-trailing-text') else 'not-reproduced'
+        c.status = 'reproduced' if accepted == c.role.startswith('accepts-trailing-text') else 'not-reproduced'
